@@ -19,7 +19,7 @@ MIN_DECIDED_RATIO = 0.5
 WHAT = ("match", "vars", "counters", "valid")
 KNOWN_SWITCHES = ("F9", "F9b")
 RULE = (
-    "random programs of 1-5 components drawn from {fail(), c->fail(), not(c)->fail(), fail.onmatch(), fail_and_stop(c), c->fail_and_stop(), "
+    "random programs of 1-5 components drawn from {fail(), fail_all(), c->fail(), c->fail_all(), not(c)->fail(), fail.onmatch(), fail_and_stop(c), c->fail_and_stop(), "
     "skip(c2)/stop(c2) before a fail form, @v = valid(), failed() -> push, push, an error-provoking vote gt(add(#3,1),0)} x random flag files x "
     "all 16 subsets of {collect, stop, fail, print}; plus groups of 1-4 such members run through the six CsvPaths methods, where "
     "results_manager.is_valid, the run manifest's all_valid and the member manifests' valid are compared with the members' verdicts. "
@@ -42,6 +42,8 @@ def fail_forms(r):
             ("when", C_F, ("fn", "fail", [], [])),
             ("when", ("fn", "not", [C_F], []), ("fn", "fail", [], [])),
             ("fn", "fail", [], ["onmatch"]),
+            ("fn", "fail_all", [], []),
+            ("when", C_F, ("fn", "fail_all", [], [])),
             ("fn", "fail_and_stop", [C_F], []),
             ("when", C_F, ("fn", "fail_and_stop", [], [])),
         ]
